@@ -184,7 +184,9 @@ class PendingIf(_PendingCompoundStmt[If]):
         orelse = self.nsp_global.expr_wraper(self.converted_orelse)
         if self.nsp_global.configs.if_style == "short_circuit":
             if len(self.converted_orelse) > 0:
-                body_or_true = BoolOp(op=Or(), values=[body, Constant(value=1)])
+                # a one-element list: true whatever the body evaluates to, and the
+                # value of the body itself (a user object) is never truth-tested
+                body_or_true = List(elts=[body], ctx=Load())
                 # `not not`: a condition that is false must not be tested
                 # a second time by the `or` that selects the other branch
                 test_once = UnaryOp(op=Not(), operand=UnaryOp(op=Not(), operand=test))
